@@ -53,7 +53,10 @@ Inductive action :=
 | ASpawn (slot : nat) (body : list action)   (* yaclib_std::thread{body} stored in handle [slot] *)
 | AJoin (slot : nat)               (* Thread::join *)
 | ADetach (slot : nat)             (* Thread::detach *)
-| ACheck.                          (* the client records (GetFaultRandomCount(), GetInjectorState()) *)
+| ACheck                           (* the client records (GetFaultRandomCount(), GetInjectorState()) *)
+| ALogVal (v : N).                 (* the client reports a value it drew from a yaclib_std::random_device: the device's
+                                      stream is mt19937_64(GetSeed()), a function of the seed alone, so v is part of
+                                      the program text (checks/c17.py expands the steering it causes) *)
 
 Inductive fstate := FRunning | FSuspended | FWaiting | FCompleted.   (* fiber_base.hpp FiberState *)
 Definition fstate_eqb (a b : fstate) : bool :=
@@ -110,6 +113,7 @@ Inductive obs :=
 | OCas (f : fid) (ok : bool)
 | OTimed (f : fid) (timeout : bool)
 | OCheck (count : nat) (state : N)       (* a recorded (random count, injector state) pair *)
+| OVal (f : fid) (v : N)                 (* a value drawn from a yaclib_std::random_device *)
 | OCrash (code : nat).
 
 (* ------------------------------------------------------------------ field updates *)
@@ -412,6 +416,7 @@ Definition do_action (f : fid) (r : fiber) (a : action) (rest : list action) (s 
                end
       end
   | ACheck => (pop, [OCheck (rc s) (inj s)])
+  | ALogVal v => (pop, [OVal f v])
   end.
 
 (* FiberBase::Exit, then back in RunLoop: delete the fiber when no Thread handle refers to it any more *)
@@ -529,7 +534,7 @@ Inductive cmd :=
 | CCvWait (c m : nat) | CCvWaitFor (c m : nat) (d : N) | CCvNotifyOne (c : nat) | CCvNotifyAll (c : nat)
 | CQWait (q : nat) | CQWaitFor (q : nat) (d : N) | CQNotifyOne (q : nat) | CQNotifyAll (q : nat)
 | CSpawn (slot : nat) (body : list cmd) | CJoin (slot : nat) | CDetach (slot : nat)
-| CPhase.
+| CPhase | CLogVal (v : N).
 
 Fixpoint expand1 (c : cmd) : list action :=
   match c with
@@ -557,5 +562,6 @@ Fixpoint expand1 (c : cmd) : list action :=
   | CJoin sl => [AJoin sl]
   | CDetach sl => [ADetach sl]
   | CPhase => [ACheck]
+  | CLogVal v => [ALogVal v]
   end.
 Definition expand (l : list cmd) : list action := flat_map expand1 l.
